@@ -105,7 +105,8 @@ KindsFor(entry, slot) ==
     [] entry \in CallableEntries -> WrongFor(slot)
 (* `with`: a VALID companion argument supplied in the same update call (a   *)
 (* validation that only runs when the other arguments are absent is a hole)*)
-Companions == {"none", "time", "measurement", "tags", "fields"}
+Companions == {"none", "time", "measurement", "tags", "fields", "tags_callable", "fields_callable"}
+CompanionArg(w) == CASE w = "tags_callable" -> "tags" [] w = "fields_callable" -> "fields" [] OTHER -> w
 ArgOf(slot) == CASE slot = "time" -> "time" [] slot = "measurement" -> "measurement"
                  [] slot \in {"tagkey", "tagvalue"} -> "tags" [] OTHER -> "fields"
 BadOps ==
@@ -118,7 +119,7 @@ BadCells == {b \in BadOps :
                /\ b.kind \in KindsFor(b.entry, b.slot)
                /\ \/ b.with = "none"
                   \/ /\ b.entry \in {"update_static", "update_all_static", "update_callable"}
-                     /\ b.with # ArgOf(b.slot)
+                     /\ CompanionArg(b.with) # ArgOf(b.slot)
                      /\ b.kind \in {"int", "str", "dict", "bool"}}
 BadDone == \E i \in 1..Len(hist) : hist[i].op = "bad"
 
